@@ -133,19 +133,36 @@ func ZZ_C11_Sequential() {
 	zzvf.Reach("sequential")
 }
 
-// double queue: the first queue is always served before the second
-//vf: paths=300000
+// double queue: the first queue is always served before the second; both queues are bounded
+// FIFOs with refusal / forced eviction (callbacks set in-package: the type has no setter),
+// capacities can be changed while the queues hold elements (a forced put on a queue that is
+// over its new bound evicts down to the bound), clear empties both
+//vf: paths=600000 t.paths=3000000
 func ZZ_C11_Double() {
 	c1, c2 := zzvf.Int(), zzvf.Int()
 	zzvf.Assume(zzvf.And(c1 >= -1, c1 <= 3))
 	zzvf.Assume(zzvf.And(c2 >= -1, c2 <= 3))
 	q := NewRequestDoubleQueue(c1, c2)
 	m1, m2 := &zzFifo{cap: c1}, &zzFifo{cap: c2}
-	nOps := 3
-	if zzvf.Thorough() {
-		nOps = 5
+	var failed1, overflowed1, failed2, overflowed2 []interface{}
+	q.failed1 = func(v interface{}) { failed1 = append(failed1, v) }
+	q.overflowed1 = func(v interface{}) { overflowed1 = append(overflowed1, v) }
+	q.failed2 = func(v interface{}) { failed2 = append(failed2, v) }
+	q.overflowed2 = func(v interface{}) { overflowed2 = append(overflowed2, v) }
+	// pre-state: up to 3 accepted elements in each queue
+	for i, n := 0, zzvf.Choose(4); i < n; i++ {
+		v := zzvf.Int64()
+		zzvf.Assert(q.Put1(v) == m1.put(v), "doublequeue/prefix-put1/result")
 	}
-	ops := []string{"put1", "put2", "putforce1", "putforce2", "getnowait", "get"}
+	for i, n := 0, zzvf.Choose(3); i < n; i++ {
+		v := zzvf.Int64()
+		zzvf.Assert(q.Put2(v) == m2.put(v), "doublequeue/prefix-put2/result")
+	}
+	nOps := 2
+	if zzvf.Thorough() {
+		nOps = 4
+	}
+	ops := []string{"put1", "put2", "putforce1", "putforce2", "getnowait", "get", "setcapacity", "clear", "size"}
 	for s := 0; s < nOps; s++ {
 		op := zzvf.Choose(len(ops))
 		what := "doublequeue/" + ops[op]
@@ -184,9 +201,31 @@ func ZZ_C11_Double() {
 			default:
 				zzvf.Assert(r == nil, what+"/empty-returns-nil")
 			}
+		case 6:
+			n1, n2 := zzvf.Int(), zzvf.Int()
+			zzvf.Assume(zzvf.And(n1 >= -1, n1 <= 3))
+			zzvf.Assume(zzvf.And(n2 >= -1, n2 <= 3))
+			q.SetCapacity(n1, n2)
+			m1.cap, m2.cap = n1, n2
+			zzvf.Assert(zzvf.And(q.GetCapacity1() == n1, q.GetCapacity2() == n2), what+"/readback")
+		case 7:
+			q.Clear()
+			m1.e, m2.e = nil, nil
+		case 8:
+			zzvf.Assert(q.Size() == len(m1.e)+len(m2.e), what+"/sum-of-both")
 		}
 		zzvf.Assert(zzvf.And(q.Size1() == len(m1.e), q.Size2() == len(m2.e)), "doublequeue/sizes-after-"+ops[op])
 	}
+	// drain: first queue entirely before the second, each in acceptance order, nothing extra
+	ok := true
+	for _, want := range append(append([]int64{}, m1.e...), m2.e...) {
+		v, isI := zzUnbox(q.GetNoWait())
+		ok = zzvf.And(ok, zzvf.And(isI, v == want))
+	}
+	zzvf.Assert(ok, "doublequeue/drain-first-then-second-in-acceptance-order")
+	zzvf.Assert(q.GetNoWait() == nil, "doublequeue/nothing-extra")
+	zzvf.Assert(zzvf.And(zzSameLog(failed1, m1.failed), zzSameLog(failed2, m2.failed)), "doublequeue/failed-callback-logs")
+	zzvf.Assert(zzvf.And(zzSameLog(overflowed1, m1.overflowed), zzSameLog(overflowed2, m2.overflowed)), "doublequeue/overflowed-callback-logs-oldest-first-each-once")
 	zzvf.Reach("double")
 }
 
